@@ -139,6 +139,40 @@ VH_OP(dedupv) {
   return twice(g, [](PointCloud *pc) { return pc->DeduplicateAttributeValues(); });
 }
 
+// dedupx <offset> <point cloud with ONE attribute, identity map>: the documented external-source entry points of
+// PointAttribute: a fresh destination attribute of n = size - offset entries deduplicates the source's values
+// [offset, offset + n) into itself (DeduplicateValues(in_att) when offset = 0 and `plain`, else the offset overload).
+//   -> ret=<r> unique=<dst.size()> | <hex of the value of every destination point> | <hex of every stored value>
+VH_OP(dedupx) {
+  if (a.size() < 3) return "bad-op";
+  const int offset = atoi(a[1].c_str());
+  const bool plain = a[2] == "plain";
+  Parsed g = parse(a, 3);
+  if (!g.ok || g.pc->num_attributes() != 1) return "invalid-input";
+  const PointAttribute *src = g.pc->attribute(0);
+  const int n = static_cast<int>(src->size()) - offset;
+  if (offset < 0 || n < 1) return "invalid-input";
+  PointAttribute dst;
+  dst.Init(src->attribute_type(), src->num_components(), src->data_type(), src->normalized(), n);
+  const int64_t r = (plain && offset == 0) ? dst.DeduplicateValues(*src)
+                                           : dst.DeduplicateValues(*src, AttributeValueIndex(offset));
+  std::string out = "ret=" + std::to_string(r) + " unique=" + std::to_string(dst.size()) + " |";
+  if (r < 0) return out;
+  std::vector<uint8_t> v(src->byte_stride());
+  for (int i = 0; i < n; ++i) {
+    const AttributeValueIndex vi = dst.mapped_index(PointIndex(i));
+    if (vi.value() >= dst.size()) return out + " OUT-OF-RANGE-MAP";
+    dst.GetValue(vi, v.data());
+    out += " " + vh::hex(v.data(), v.size());
+  }
+  out += " |";
+  for (uint32_t i = 0; i < dst.size(); ++i) {
+    dst.GetValue(AttributeValueIndex(i), v.data());
+    out += " " + vh::hex(v.data(), v.size());
+  }
+  return out;
+}
+
 VH_OP(dedupp) {
   Parsed g = parse(a, 1);
   if (!g.ok) return "invalid-input";
